@@ -118,6 +118,14 @@ var AllDecodable = append(append([]ref.DType{}, NumericDTs...), ref.Bool)
 // All14 are all fourteen gorgonia element types gonnx mentions.
 var All14 = append(append([]ref.DType{}, AllDecodable...), ref.C64, ref.C128, ref.Str)
 
+// Data13 are the element types used for value-carrying workloads: all of All14
+// except String. gorgonia v0.9.24 copies string headers into pointer-free
+// memory when it clones or materialises a String tensor, so the element bytes
+// are garbage after the next GC cycle (recorded as a known finding and
+// demonstrated by a dedicated, deterministic probe; see props/strings.go).
+// Keeping strings in the random workloads would make them flaky.
+var Data13 = append(append([]ref.DType{}, AllDecodable...), ref.C64, ref.C128)
+
 func intLimits(dt ref.DType) (lo, hi int64) {
 	switch dt {
 	case ref.I8:
